@@ -236,20 +236,26 @@ CLAIMED = {
          "DESIGN.md §6 C15"),
 }
 
-# clauses added after the third held-out batch (DESIGN.md §10.4), appended to the level text of the property
+# clauses added after the third and fourth held-out batches (DESIGN.md §10.4), appended to the level text of the property
 EXTRA = {
- "C02": " Tasks.GetMesosCommandTargets: every task of the list becomes a command target (an unlocked task yields an error, it is not skipped).",
- "C03": " handleDeviceEvent resolves the environment of an internal error from the task's parent role (the one that owns it); HandleAgentFailed reaches every task on the lost agent (loop invariant).",
- "C05": " resourceOffers: an offer that was taken off the decline list is answered with ACCEPT, also when no task could be assembled on it.",
- "C06": " acquireTasks: when a deployment is given up every task launched for it is un-parented before it is reported as deployed-but-unused.",
- "C08": " callRole.GetHooksMapForTrigger hands out a fresh Call per lookup (a pending execution is never overwritten by a restart).",
- "C09": " (*Call).Call: a hook expression that cannot be evaluated, or whose execution fails, makes the call return a non-nil error.",
- "C12": " commit builds the placeholder error response of an unanswered target for that target (not reused across targets).",
- "C13": " roleBase.copy: the copy's Connect slice has its own backing array (append is modelled with in-place growth, so re-slicing the source is caught).",
+ "C02": " Tasks.GetMesosCommandTargets: every task of the list becomes a command target (an unlocked task yields an error, it is not skipped). configureTasks swallows the error of a plain (single-target) response only after the task was asked about and found non-critical; FairMQ.doReset's error contract is charged to this property too (an executor answers with an error whenever the task did not reach the expected state).",
+ "C03": " handleDeviceEvent resolves the environment of an internal error from the task's parent role (the one that owns it); HandleAgentFailed reaches every task on the lost agent (loop invariant). TeardownEnvironment removes the workflow-state watcher only together with the environment (never from a defer, never before the environment left the listing); the Mesos UPDATE handler forwards every status update to the task manager exactly once.",
+ "C05": " resourceOffers: an offer that was taken off the decline list is answered with ACCEPT, also when no task could be assembled on it. roleBase.getConstraints merges with the role's own constraints as receiver and the enclosing roles' as parent; both matching loops of resourceOffers compare wants with what is LEFT of the offer.",
+ "C06": " acquireTasks: when a deployment is given up every task launched for it is un-parented before it is reported as deployed-but-unused. doKillTasks sends a KILL for every ACTIVE task of its list, in order, whatever the outcome of the earlier ones (loop invariant).",
+ "C08": " callRole.GetHooksMapForTrigger hands out a fresh Call per lookup (a pending execution is never overwritten by a restart). both weight passes (negative, non-negative) of a moment call handleHooks exactly once whatever hooks exist; TeardownEnvironment cancels pending calls only after its own leave_ and DESTROY hooks.",
+ "C09": " (*Call).Call: a hook expression that cannot be evaluated, or whose execution fails, makes the call return a non-nil error. callRole.copy keeps the Traits (critical, trigger, await, timeout) of the original.",
+ "C12": " commit builds the placeholder error response of an unanswered target for that target (not reused across targets). the queue worker of CommandQueue.Start hands every committed command's result to its caller with a blocking send of exactly what commit returned, before the next entry is taken.",
+ "C13": " roleBase.copy: the copy's Connect slice has its own backing array (append is modelled with in-place growth, so re-slicing the source is caught). GetWantsForDescriptor merges inbound channels with the role-level declarations outranking the task class's.",
  "C17": " pidExists probes a process group (negative pid) through its leader instead of answering from the sign.",
- "C18": " BuildFrameworkInfo announces the failover timeout whenever one is configured (mesos-go re-subscribes under the stored framework id only then).",
+ "C18": " BuildFrameworkInfo announces the failover timeout whenever one is configured (mesos-go re-subscribes under the stored framework id only then). the Mesos UPDATE handler forwards every status update (also about tasks not in the roster) to the task manager.",
  "C19": " ClearEventWriters calls Close on every registered writer before the registry is cleared (map range with visited-set invariant; clear() modelled).",
  "C20": " YamlSource.Exists reports an error only if the store cannot be read or an array index is malformed; a path that runs into a plain value is 'absent'.",
+ "C01": " TeardownEnvironment refuses an environment it finds in DONE whatever `force` says (nothing is sent, no hook runs).",
+ "C07": " NewRunNumber's file backend parses exactly the content of the counter file (a blank or damaged file is an error, not a restart from 1).",
+ "C10": " StopActivityTransition.do never writes the run number.",
+ "C11": " callRole.updateStatus merges and forwards every status update to the parent whatever the role's criticality.",
+ "C14": " roleBase.copy gives the copy its own Defaults/Vars/UserVars maps; a `!public` entry that decodes is stored whatever its value (an empty value is a definition).",
+ "C15": " roleBase.copy's own-backing-array clauses are charged to this property too; iteratorRole.ProcessTemplates prunes disabled generated roles on every successful load.",
 }
 
 NOT_APPLICABLE = {
